@@ -102,10 +102,18 @@ func genCsvDocH(r *tx.Rng, size int, numeric bool, dupHdr bool) csvDoc {
 	}
 	nrows := r.PickInt([]int{0, 1, 2, 3, 3, 4, 6})
 	ncols := 1 + r.Intn(4)
+	// half of the duplicate headers come from templates in which a generated candidate (c0, c1, c00) is a column of its
+	// own to the right or to the left of the duplicates
+	var hdrTemplate []string
 	if dupHdr {
 		ncols = 2 + r.Intn(4)
 		if nrows == 0 {
 			nrows = 2
+		}
+		if r.Bool() {
+			hdrTemplate = [][]string{{"c", "c", "c0"}, {"c", "c0", "c"}, {"c0", "c", "c"}, {"c", "c", "c", "c0", "c1"}, {"c", "c", "c1", "c0"},
+				{"c", "c", "c00", "c0"}, {"d", "c", "c", "c0"}, {"c", "c", "c0", "c0"}, {"c", "d", "c", "d", "d0"}, {"c", "c", "c", "c1"}}[r.Intn(10)]
+			ncols = len(hdrTemplate)
 		}
 	}
 	if size >= 2 && r.P(1, 6) {
@@ -151,6 +159,9 @@ func genCsvDocH(r *tx.Rng, size int, numeric bool, dupHdr bool) csvDoc {
 			}
 			if dupHdr && i == 0 {
 				cell = []string{"c", "c", "c", "c0", "c1", "c00", "d", ""}[r.Intn(8)]
+				if hdrTemplate != nil {
+					cell = hdrTemplate[c]
+				}
 			}
 			row[c] = cell
 		}
